@@ -390,7 +390,7 @@ func c01Run(t *testing.T, p *world.PKI, ds []Dev, m world.Mask, seed uint64) run
 func TestC01(t *testing.T) {
 	env := run.GetEnv()
 	p := world.GetPKI(t)
-	devs := append(ConfigDevs(), HookDevs()...)
+	devs := append(append(ConfigDevs(), HookDevs()...), MoreDevs()...)
 	kc, nd, kd := 2, 6, 1
 	if env.Thorough() {
 		kc, nd, kd = 2, 6, 2
